@@ -2,6 +2,7 @@ package props
 
 import (
 	"fmt"
+	"go/token"
 	"go/types"
 	"sort"
 	"strings"
@@ -203,35 +204,100 @@ func C16(p *load.Program, run *report.Run) {
 
 // C15 decides the structure of the KOS consistency check.
 func C15(p *load.Program, run *report.Run) {
-	run.Rule("kos-check-dominates-success", "with malicious set, IKNPSender.Send returns success only over the true edges of both q.Equal(t) tests")
-	run.Rule("kos-check-dependence", "the compared value depends on Delta, on both extension batches and on the received x; t0,t1 come from the wire")
+	run.Rule("kos-check-dominates-success", "with malicious set, IKNPSender.Send returns success only over the true edges of both q.Equal(t) tests — its own, or those of a helper of the package that returns a nil error only over them and whose error Send tests")
+	run.Rule("kos-check-dependence", "the compared value depends on Delta, on both extension batches and on the received x; t0,t1 come from the wire (the slice follows helpers of the module and state kept in fields of the sender)")
 	f, err := p.Method("ot", "IKNPSender", "Send")
 	if err != nil {
 		run.Undecided("kos-check-dominates-success", "ot.IKNPSender.Send", "", err.Error())
 		return
 	}
 	key := "ot.IKNPSender.Send"
-	// the Equal calls
-	var equals []*ssa.Call
-	for _, b := range f.Blocks {
-		for _, ins := range b.Instrs {
-			if c, ok := ins.(*ssa.Call); ok {
-				if callee := c.Call.StaticCallee(); callee != nil && callee.String() == "("+load.Module+"/ot.Label).Equal" {
-					equals = append(equals, c)
+	equalsOf := func(g *ssa.Function) []*ssa.Call {
+		var out []*ssa.Call
+		for _, b := range g.Blocks {
+			for _, ins := range b.Instrs {
+				if c, ok := ins.(*ssa.Call); ok {
+					if callee := c.Call.StaticCallee(); callee != nil && callee.String() == "("+load.Module+"/ot.Label).Equal" {
+						out = append(out, c)
+					}
+				}
+			}
+		}
+		return out
+	}
+	successesOf := func(g *ssa.Function) []*ssa.Return {
+		var out []*ssa.Return
+		for _, b := range g.Blocks {
+			if b == g.Recover {
+				continue // the block a recovered panic resumes at returns whatever the result cells hold
+			}
+			if r, ok := b.Instrs[len(b.Instrs)-1].(*ssa.Return); ok {
+				rs := load.Results(r)
+				if len(rs) == 0 {
+					continue
+				}
+				if c, ok := rs[len(rs)-1].(*ssa.Const); ok && c.Value == nil {
+					out = append(out, r)
+				}
+			}
+		}
+		return out
+	}
+	// dominated: every success return of g needs the equality to be true (after cutting the edges in base)
+	dominated := func(g *ssa.Function, base map[[2]int]bool, trueEdges [][2]int) bool {
+		cut := map[[2]int]bool{}
+		for k := range base {
+			cut[k] = true
+		}
+		for _, e := range trueEdges {
+			cut[e] = true
+		}
+		if len(trueEdges) == 0 {
+			return false
+		}
+		for _, r := range successesOf(g) {
+			if flow.ReachableWithoutEdges(g, cut, r.Block()) {
+				return false
+			}
+		}
+		return true
+	}
+	equals := equalsOf(f)
+	// a helper that holds the check: a module function called from Send whose nil-error returns need both of
+	// its own equality tests; the edges on which Send sees its error as nil stand for the tests
+	type helperCheck struct {
+		call   *ssa.Call
+		callee *ssa.Function
+		eqs    []*ssa.Call
+	}
+	var helper *helperCheck
+	if len(equals) < 2 {
+		for _, b := range f.Blocks {
+			for _, ins := range b.Instrs {
+				c, ok := ins.(*ssa.Call)
+				if !ok || c.Call.StaticCallee() == nil || !load.InModule(c.Call.StaticCallee()) || c.Call.StaticCallee().Blocks == nil {
+					continue
+				}
+				h := c.Call.StaticCallee()
+				res := h.Signature.Results()
+				if res.Len() == 0 || res.At(res.Len()-1).Type().String() != "error" {
+					continue
+				}
+				if eqs := equalsOf(h); len(eqs) >= 2 {
+					helper = &helperCheck{c, h, eqs}
 				}
 			}
 		}
 	}
-	run.Count("equality-tests", len(equals))
-	// success returns in malicious mode: cut the edge taken when !malicious
 	var malicious ssa.Value
 	for _, prm := range f.Params {
-		if prm.Name() == "malicious" {
+		if b, ok := prm.Type().Underlying().(*types.Basic); ok && b.Kind() == types.Bool {
 			malicious = prm
 		}
 	}
-	if malicious == nil || len(equals) < 2 {
-		run.Violate("kos-check-dominates-success", key, p.Rel(f.Pos()), fmt.Sprintf("expected a malicious parameter and two label equality tests, found %d", len(equals)), nil)
+	if malicious == nil || (len(equals) < 2 && helper == nil) {
+		run.Count("equality-tests", len(equals))
+		run.Violate("kos-check-dominates-success", key, p.Rel(f.Pos()), fmt.Sprintf("expected a boolean mode parameter and two label equality tests in Send or in a helper it calls, found %d", len(equals)), nil)
 		return
 	}
 	cutBase := map[[2]int]bool{}
@@ -239,61 +305,83 @@ func C15(p *load.Program, run *report.Run) {
 		// TrueEdges gives the edge where malicious is true; cut the opposite edge
 		cutBase[[2]int{e[0], 1 - e[1]}] = true
 	}
-	var successes []*ssa.Return
-	for _, b := range f.Blocks {
-		if b == f.Recover {
-			continue // the block a recovered panic resumes at returns whatever the result cells hold
+	var sliceRoots []ssa.Value
+	xs := flow.NewXSlice(load.InModule)
+	if helper == nil {
+		run.Count("equality-tests", len(equals))
+		for i, eq := range equals {
+			k := fmt.Sprintf("%s/equal#%d", key, i)
+			if dominated(f, cutBase, flow.TrueEdges(f, eq)) {
+				run.OK("kos-check-dominates-success", k, p.Rel(eq.Pos()), "every malicious-mode success return needs this test to be true")
+			} else {
+				run.Violate("kos-check-dominates-success", k, p.Rel(eq.Pos()), "a success return is reachable in malicious mode without this equality being true", nil)
+			}
+			sliceRoots = append(sliceRoots, eq.Call.Args...)
 		}
-		if r, ok := b.Instrs[len(b.Instrs)-1].(*ssa.Return); ok {
-			if c, ok := load.Results(r)[len(load.Results(r))-1].(*ssa.Const); ok && c.Value == nil {
-				successes = append(successes, r)
+	} else {
+		run.Count("equality-tests", len(helper.eqs))
+		hname := strings.ReplaceAll(helper.callee.RelString(nil), load.Module+"/", "")
+		for i, eq := range helper.eqs {
+			k := fmt.Sprintf("%s/%s/equal#%d", key, hname, i)
+			if dominated(helper.callee, nil, flow.TrueEdges(helper.callee, eq)) {
+				run.OK("kos-check-dominates-success", k, p.Rel(eq.Pos()), "the helper returns a nil error only over this test")
+			} else {
+				run.Violate("kos-check-dominates-success", k, p.Rel(eq.Pos()), "the helper can return a nil error without this equality being true", nil)
+			}
+			sliceRoots = append(sliceRoots, eq.Call.Args...)
+		}
+		// the edges of Send on which the helper's error is nil
+		var errv ssa.Value = helper.call
+		if helper.callee.Signature.Results().Len() > 1 {
+			errv = nil
+			if helper.call.Referrers() != nil {
+				for _, r := range *helper.call.Referrers() {
+					if ex, ok := r.(*ssa.Extract); ok && ex.Index == helper.callee.Signature.Results().Len()-1 {
+						errv = ex
+					}
+				}
 			}
 		}
-	}
-	for i, eq := range equals {
-		cut := map[[2]int]bool{}
-		for k := range cutBase {
-			cut[k] = true
-		}
-		te := flow.TrueEdges(f, eq)
-		for _, e := range te {
-			cut[e] = true
-		}
-		okAll := len(te) > 0
-		for _, r := range successes {
-			if flow.ReachableWithoutEdges(f, cut, r.Block()) {
-				okAll = false
+		var nilEdges [][2]int
+		if errv != nil && errv.Referrers() != nil {
+			for _, r := range *errv.Referrers() {
+				bo, ok := r.(*ssa.BinOp)
+				if !ok || (bo.Op != token.NEQ && bo.Op != token.EQL) || bo.Referrers() == nil {
+					continue
+				}
+				for _, r2 := range *bo.Referrers() {
+					if iff, ok := r2.(*ssa.If); ok {
+						if bo.Op == token.NEQ {
+							nilEdges = append(nilEdges, [2]int{iff.Block().Index, 1})
+						} else {
+							nilEdges = append(nilEdges, [2]int{iff.Block().Index, 0})
+						}
+					}
+				}
 			}
 		}
-		k := fmt.Sprintf("%s/equal#%d", key, i)
-		if okAll {
-			run.OK("kos-check-dominates-success", k, p.Rel(eq.Pos()), "every malicious-mode success return needs this test to be true")
+		k := fmt.Sprintf("%s/%s", key, hname)
+		if dominated(f, cutBase, nilEdges) {
+			run.OK("kos-check-dominates-success", k, p.Rel(helper.call.Pos()), "every malicious-mode success return needs the helper's error to be nil")
 		} else {
-			run.Violate("kos-check-dominates-success", k, p.Rel(eq.Pos()), "a success return is reachable in malicious mode without this equality being true", nil)
+			run.Violate("kos-check-dominates-success", k, p.Rel(helper.call.Pos()), "a success return is reachable in malicious mode without the error of the check being tested and nil", nil)
 		}
+		xs.Enter(helper.callee, helper.call)
 	}
 	// dependence
-	var roots []ssa.Value
-	for _, eq := range equals {
-		roots = append(roots, eq.Call.Args...)
-	}
-	slice := flow.BackwardSlice(f, roots...)
+	xs.Add(sliceRoots...)
 	need := map[string]bool{"Delta": false, "send#1": false, "send#2": false, "receive x,t0,t1,seed": false, "mul128": false, "inner product": false}
-	sends, recvs := 0, 0
-	for ins := range slice {
+	recvs := 0
+	for ins := range xs.Set {
 		switch t := ins.(type) {
 		case *ssa.FieldAddr:
-			if st, ok := t.X.Type().Underlying().(*types.Pointer); ok {
-				if s, ok := st.Elem().Underlying().(*types.Struct); ok && s.Field(t.Field).Name() == "Delta" {
-					need["Delta"] = true
-				}
+			if structFieldName(t.X.Type(), t.Field) == "Delta" {
+				need["Delta"] = true
 			}
 		case ssa.CallInstruction:
 			callee := t.Common().StaticCallee()
 			if callee != nil {
 				switch callee.Name() {
-				case "send":
-					sends++
 				case "mul128":
 					need["mul128"] = true
 				case "vectorInnPrdtSumNoRed":
@@ -305,33 +393,17 @@ func C15(p *load.Program, run *report.Run) {
 			}
 		}
 	}
-	// the extension batches must enter the check as the multiplied vectors
-	batchCalls := map[ssa.Instruction]bool{}
-	for ins := range slice {
-		c, ok := ins.(ssa.CallInstruction)
-		if !ok || c.Common().StaticCallee() == nil || c.Common().StaticCallee().Name() != "vectorInnPrdtSumNoRed" || len(c.Common().Args) < 2 {
-			continue
-		}
-		v := c.Common().Args[1]
-		for depth := 0; depth < 8 && v != nil; depth++ {
-			switch t := v.(type) {
-			case *ssa.Slice:
-				v = t.X
-				continue
-			case *ssa.Extract:
-				v = t.Tuple
-				continue
-			case *ssa.Call:
-				if callee := t.Call.StaticCallee(); callee != nil && callee.Name() == "send" {
-					batchCalls[t] = true
-				}
+	// the extension batches must enter the check: both calls of the extension (`send`) made by Send are in the slice
+	batch := 0
+	for ins := range xs.Set {
+		if c, ok := ins.(*ssa.Call); ok && c.Parent() == f {
+			if callee := c.Call.StaticCallee(); callee != nil && callee.Name() == "send" {
+				batch++
 			}
-			break
 		}
 	}
-	_ = sends
-	need["send#1"] = len(batchCalls) >= 1
-	need["send#2"] = len(batchCalls) >= 2
+	need["send#1"] = batch >= 1
+	need["send#2"] = batch >= 2
 	need["receive x,t0,t1,seed"] = recvs >= 4
 	for what, ok := range need {
 		k := key + "/depends-on " + what
@@ -419,6 +491,12 @@ func c16branches(p *load.Program, run *report.Run, cx *c16ctx) {
 			}
 			n++
 			k := fmt.Sprintf("%s/branch at %s", key, condShape(iff.Cond))
+			// a received value that an earlier test pinned to a local value (if v != local { error }) is no
+			// longer the peer's choice on the surviving path
+			if pinned(f, ta, succ, iff.Cond, b) {
+				run.OK("received-data-steers-only-to-errors", k, p.Rel(iff.Cond.Pos()), "the received value was compared for equality with a local value before; the other outcome is an error")
+				continue
+			}
 			if succ[b.Succs[0]] && succ[b.Succs[1]] {
 				run.Violate("received-data-steers-only-to-errors", k, p.Rel(iff.Cond.Pos()), "both sides of a branch on received data can reach a success return: the peer's bytes choose which value is returned as a success", ta.Why(iff.Cond, 6))
 			} else {
@@ -428,6 +506,73 @@ func c16branches(p *load.Program, run *report.Run, cx *c16ctx) {
 		run.Count("received-data-branches", n)
 	}
 	run.Floor("received-data-branches", 2)
+}
+
+// pinned: every tainted integer operand of cond is, on the way to block at, known to equal an untainted
+// value: a dominating `if v != X` (or ==) whose unequal side cannot reach a success return.
+func pinned(f *ssa.Function, ta *flow.Taint, succ map[*ssa.BasicBlock]bool, cond ssa.Value, at *ssa.BasicBlock) bool {
+	bo, ok := cond.(*ssa.BinOp)
+	if !ok {
+		return false
+	}
+	strip := func(v ssa.Value) ssa.Value {
+		for {
+			switch t := v.(type) {
+			case *ssa.Convert:
+				v = t.X
+			case *ssa.ChangeType:
+				v = t.X
+			default:
+				return v
+			}
+		}
+	}
+	isPinned := func(v ssa.Value) bool {
+		v = strip(v)
+		for _, d := range f.Blocks {
+			iff, ok := d.Instrs[len(d.Instrs)-1].(*ssa.If)
+			if !ok || d == at || !d.Dominates(at) {
+				continue
+			}
+			c, ok := iff.Cond.(*ssa.BinOp)
+			if !ok || (c.Op != token.EQL && c.Op != token.NEQ) {
+				continue
+			}
+			var other ssa.Value
+			switch {
+			case strip(c.X) == v:
+				other = c.Y
+			case strip(c.Y) == v:
+				other = c.X
+			default:
+				continue
+			}
+			if ta.T[other] {
+				continue
+			}
+			eqSide, neSide := d.Succs[0], d.Succs[1]
+			if c.Op == token.NEQ {
+				eqSide, neSide = d.Succs[1], d.Succs[0]
+			}
+			if succ[neSide] {
+				continue
+			}
+			if eqSide == at || eqSide.Dominates(at) {
+				return true
+			}
+		}
+		return false
+	}
+	any := false
+	for _, op := range []ssa.Value{bo.X, bo.Y} {
+		if ta.T[op] {
+			if !isPinned(op) {
+				return false
+			}
+			any = true
+		}
+	}
+	return any
 }
 
 func condShape(v ssa.Value) string {
